@@ -10,6 +10,8 @@ func deletable(n *Node) (from int, min int) {
 		return 0, 0
 	case KCall:
 		return 1, 0
+	case KDotCall:
+		return 0, 0
 	case KBegin, KScope, KAnd, KOr:
 		return 0, 1
 	case KLet, KLetSeq:
